@@ -663,6 +663,35 @@ def build_model_map():
     c03 = _props("C03")
     for cid, cls in enumerate(c03.CLS):
         MM[cls.__name__ + ".FromSeed"] = via("C03", "seed_path", "deriv", (lambda c_: lambda x: [c_, x, 0, []])(cid))
+    # FromSeedAndPath(seed, str) = FromSeed(seed).DerivePath(Bip32PathParser.Parse(str)): the composition of the path
+    # model (group paths) and the derivation model (group deriv), observed like C03 observes a derived object
+    def seed_and_path_model(cid):
+        def f(m, x):
+            r = m.call("paths.bip32_parse", x)
+            if r[0] == "err":
+                return r
+            elems, is_abs = r[1]
+            return m.call("deriv.slip10_seed_path", cid, 0, c03.FUEL, [], SEED, int(bool(is_abs)), [int(i) for i in elems])
+        return f
+    for cid, cls in enumerate(c03.CLS):
+        MM[cls.__name__ + ".FromSeedAndPath"] = M(seed_and_path_model(cid),
+                                                  impl=(lambda c_, k_: lambda x: c03.obs(c_, k_.FromSeedAndPath(SEED, x)))(cid, cls))
+    # Substrate.FromSeedAndPath(seed, str): sr25519 pair from the seed (oracle), then the path model's DerivePath(str)
+    c19 = _props("C19")
+    sub_pk, sub_sk = c19.seed_keys(SEED[:32])
+    MM["Substrate.FromSeedAndPath"] = M(lambda m, x: c19.model_derive(Q(m, "paths"), [[sub_sk], sub_pk, x]), shape="class")
+    # <Bip32 class>.FromPrivateKey(bytes) / FromPublicKey(bytes) with the default key data, observed through ToExtended()
+    for cname, cid, ver in (("Bip32Slip10Secp256k1", 0, c05.MAIN), ("Bip32KholawEd25519", 1, c05.KHOLAW),
+                            ("Bip32Slip10Ed25519", 2, c05.MAIN)):
+        MM[cname + ".FromPrivateKey"] = M(
+            (lambda cid_, ver_: lambda m, x: m.call("serbip.c05_ser_priv", cid_, ver_[0], ver_[1], Z(0), Z(0), bytes(32), bytes(4), x))(cid, ver),
+            shape="class")
+        MM[cname + ".FromPublicKey"] = M(
+            (lambda cid_, ver_: lambda m, x: m.call("serbip.c05_ser_pub", cid_, ver_[0], ver_[1], Z(0), Z(0), bytes(32), bytes(4), x))(cid, ver),
+            shape="class")
+    # ElectrumV1.FromPrivateKey(bytes) / FromPublicKey(bytes), observed through the first public key
+    MM["ElectrumV1.FromPrivateKey"] = M(lambda m, x: m.call("serbip.electrum_v1_pub", 0, x, Z(0), Z(0)), shape="class")
+    MM["ElectrumV1.FromPublicKey"] = M(lambda m, x: m.call("serbip.electrum_v1_pub", 1, x, Z(0), Z(0)), shape="class")
     # ---- address decoders (C09: group addr), parameters from the coin tables (meta of the census entry)
     addr = {
         "P2PKHAddrDecoder": lambda p: (lambda m, x: m.call("addr.p2pkh_decode", 0, p["net_ver"], x)),
@@ -744,7 +773,7 @@ def generate(ctx):
     only = os.environ.get("VERIF_ONLY")
     names = sorted(n for n in ENTRIES if not only or any(o in n for o in only.split(",")))
     per = ctx.n(10, 600)
-    mcap = ctx.n(160, 1500)         # model comparisons per entry point beyond the junk list and the seeds
+    mcap = ctx.n(160, 900)          # model comparisons per entry point beyond the junk list and the seeds
     n_model = 0
     truncated = []
     for name in names:
@@ -790,7 +819,7 @@ def generate(ctx):
         # the extracted model's big-number arithmetic is quadratic: a 5000-symbol Base58 string costs ~17 s.  Over-long
         # inputs (> LONG symbols) are model-compared only for the parsers whose digit-limit behaviour is the point
         # (4300-digit int() limit), and there at most 8 of them; the fuzz obligation itself runs on all of them.
-        LONG = ctx.n(1500, 6000)
+        LONG = ctx.n(1500, 3000)
         longs = [x for x in uniq if x in sample and len(x) > LONG]
         keep_long = set(longs[:8]) if name in LONG_OK else set()
         sample = {x for x in sample if len(x) <= LONG} | keep_long
